@@ -104,7 +104,7 @@ Ltac isfield f :=
   | closing => idtac | socket_open => idtac | connected => idtac | client_closed => idtac
   | peer_saw_eof => idtac | worker => idtac | ph => idtac | cprog => idtac | cs => idtac
   | pending => idtac | accepted_early => idtac | late => idtac
-  | sel_after_close => idtac | callbacks_after_close => idtac | tr => idtac
+  | sel_after_close => idtac | callbacks_after_close => idtac | tr => idtac | chan => idtac
   end.
 Ltac rwb :=
   repeat match goal with
@@ -275,4 +275,5 @@ Proof.
   - (* ErrBroadcast *) go5.
   - (* WorkerCloseCall *) go5.
   - (* Exit *) go5.
+  - (* Arrive *) go5.
 Qed.
